@@ -472,18 +472,7 @@ class GeminiServerProtocol(asyncio.Protocol):
             allow, error_response = task.result()
 
             if not allow:
-                # Middleware rejected request - send its error response
-                if error_response:
-                    if self.transport and not self.response_sent:
-                        rejection = error_response.encode("utf-8")
-                        self.response_sent = True
-                        self.transport.write(rejection)
-                        self.transport.close()
-                else:
-                    # Rejected without a response text: still answer and close
-                    self._send_error_response(
-                        StatusCode.TEMPORARY_FAILURE, "Request rejected"
-                    )
+                self._send_rejection(error_response)
                 return
 
             # Middleware allowed request - continue routing
@@ -497,6 +486,23 @@ class GeminiServerProtocol(asyncio.Protocol):
                 exception_type=type(e).__name__,
             )
             self._send_error_response(StatusCode.TEMPORARY_FAILURE, "Middleware error")
+
+    def _send_rejection(self, error_response: str | None) -> None:
+        """Answer a request the middleware chain rejected and close.
+
+        Args:
+            error_response: The rejecting component's complete response line,
+                or None if it gave none.
+        """
+        if error_response:
+            if self.transport and not self.response_sent:
+                rejection = error_response.encode("utf-8")
+                self.response_sent = True
+                self.transport.write(rejection)
+                self.transport.close()
+        else:
+            # Rejected without a response text: still answer and close
+            self._send_error_response(StatusCode.TEMPORARY_FAILURE, "Request rejected")
 
     def connection_lost(self, exc: Exception | None) -> None:
         """Called when the connection is closed.
@@ -600,6 +606,67 @@ class GeminiServerProtocol(asyncio.Protocol):
             return
 
         client_ip = self.peer_name[0] if self.peer_name else "unknown"
+
+        # Uploads pass through the same middleware chain as Gemini requests
+        if self.middleware:
+            try:
+                task = asyncio.create_task(
+                    self.middleware.process_request(
+                        self.titan_request.normalized_url,
+                        client_ip,
+                        self.titan_request.client_cert_fingerprint,
+                    )
+                )
+                task.add_done_callback(
+                    lambda t: self._handle_titan_middleware_result(t, client_ip)
+                )
+            except RuntimeError:
+                # The chain could not be consulted: refuse the upload
+                self._send_error_response(
+                    StatusCode.TEMPORARY_FAILURE, "Middleware error"
+                )
+            return
+
+        self._start_titan_upload(client_ip)
+
+    def _handle_titan_middleware_result(
+        self, task: asyncio.Task, client_ip: str
+    ) -> None:
+        """Continue a Titan upload once the middleware chain has decided.
+
+        Args:
+            task: The completed middleware task.
+            client_ip: The client's IP address.
+        """
+        try:
+            allow, error_response = task.result()
+
+            if not allow:
+                self._send_rejection(error_response)
+                return
+
+            self._start_titan_upload(client_ip)
+
+        except Exception as e:
+            logger.error(
+                "middleware_error",
+                client_ip=client_ip,
+                error=str(e),
+                exception_type=type(e).__name__,
+            )
+            self._send_error_response(StatusCode.TEMPORARY_FAILURE, "Middleware error")
+
+    def _start_titan_upload(self, client_ip: str) -> None:
+        """Hand the (admitted) Titan upload to the upload handler.
+
+        Args:
+            client_ip: The client's IP address.
+        """
+        if not self.upload_handler or not self.titan_request:
+            self._send_error_response(
+                StatusCode.TEMPORARY_FAILURE, "Upload handler error"
+            )
+            return
 
         try:
             # Create async task for upload handler
